@@ -88,9 +88,22 @@ func registerExterns(w *World) {
 	w.ext("strings.Contains", "Contains(s,t) == str.contains(s,t)", func(ex *Exec, st *State, c *callCtx) {
 		c.k(st, term("(str.contains "+c.args[0].T+" "+c.args[1].T+")", tBool))
 	})
-	w.ext("strings.TrimSuffix", "TrimSuffix(s,t) == (suffixof(t,s) ? s[:len(s)-len(t)] : s)", func(ex *Exec, st *State, c *callCtx) {
+	w.ext("strings.TrimSuffix", "TrimSuffix(s,t): if s == r ++ t then r else s (case split; the decomposition is recorded for position lemmas)", func(ex *Exec, st *State, c *callCtx) {
 		s, t := c.args[0].T, c.args[1].T
-		c.k(st, term(ite("(str.suffixof "+t+" "+s+")", "(str.substr "+s+" 0 (- (str.len "+s+") (str.len "+t+")))", s), tString))
+		if !isStrLit(t) {
+			c.k(st, term(ite("(str.suffixof "+t+" "+s+")", "(str.substr "+s+" 0 (- (str.len "+s+") (str.len "+t+")))", s), tString))
+			return
+		}
+		no := st.clone()
+		ex.paths++
+		r := ex.fresh("trimsuffix", "String")
+		st.assume(eq(s, "(str.++ "+r+" "+t+")"))
+		st.assume("(str.suffixof " + t + " " + s + ")")
+		st.addFact(strFact{kind: "decomp", a: s, parts: []string{r, t}})
+		no.assume(not("(str.suffixof " + t + " " + s + ")"))
+		no.addFact(strFact{kind: "notsuffix", a: s, lit: smtStringValue(t)})
+		c.k(st, term(r, tString))
+		c.k(no, term(s, tString))
 	})
 	w.ext("strings.TrimSpace", "TrimSpace(s): s == l ++ r ++ t, l and t white space, r neither starts nor ends with ASCII white space", func(ex *Exec, st *State, c *callCtx) {
 		s := c.args[0].T
@@ -115,32 +128,52 @@ func registerExterns(w *World) {
 		st.assume(eq(s, "(str.++ "+sp+" "+r+")"))
 		st.assume("(str.in_re " + sp + " (re.* (str.to_re " + cut + ")))")
 		st.assume(not("(str.prefixof " + cut + " " + r + ")"))
+		cr := []rune(smtStringValue(cut))[0]
+		st.addFact(strFact{kind: "decomp", a: s, parts: []string{sp, r}})
+		st.addFact(strFact{kind: "items", a: sp, items: []rxItem{{class: []rune{cr, cr}, min: 0, max: -1}}})
+		st.addFact(strFact{kind: "notprefix", a: r, lit: smtStringValue(cut)})
 		c.k(st, term(r, tString))
 	})
-	w.ext("strings.Split", "Split(s, sep) for a literal one-character sep: parts p_0..p_{n-1}, none containing sep, s == p_0 sep p_1 ... ; modelled through first part + remainder: len >= 1, parts[0] = before first sep, Join(parts[1:], sep) = after first sep", func(ex *Exec, st *State, c *callCtx) {
+	w.ext("strings.Split", "Split(s, sep) for a literal one-character sep: parts p_0..p_{n-1}, none containing sep, s == p_0 sep p_1 ... ; modelled through first part + remainder (case split on whether sep occurs): len >= 1, parts[0] = text before the first sep, Join(parts[1:], sep) = text after it", func(ex *Exec, st *State, c *callCtx) {
 		s, sep := c.args[0].T, c.args[1].T
 		if !(strings.HasPrefix(sep, `"`) && len(sep) == 3) {
 			panic(subsetErr{"strings.Split with a separator other than one literal character"})
 		}
-		id := st.allocRef("split")
-		n := ex.fresh("nparts", "Int")
-		st.assume("(>= " + n + " 1)")
-		first := ex.fresh("part0", "String")
-		rest := ex.fresh("rest", "String")
-		has := "(str.contains " + s + " " + sep + ")"
-		st.assume(not("(str.contains " + first + " " + sep + ")"))
-		st.assume(ite(has, and(eq(s, "(str.++ "+first+" "+sep+" "+rest+")"), "(>= "+n+" 2)"), and(eq(s, first), eq(n, "1"), eq(rest, `""`))))
-		reg, sort := sliceRegion(tString)
-		a := st.region(reg, sort)
-		cont := ex.fresh("splitparts", arr("Int", "String"))
-		st.assume(eq(sel(cont, "0"), first))
-		st.setRegion(reg, sort, store(a, id, cont))
-		// ghost: remainder after the first separator, consumed by strings.Join(parts[1:], sep)
-		g := st.region("G!splitrest", arr("Int", "String"))
-		st.setRegion("G!splitrest", arr("Int", "String"), store(g, id, rest))
-		gs := st.region("G!splitsep", arr("Int", "String"))
-		st.setRegion("G!splitsep", arr("Int", "String"), store(gs, id, sep))
-		c.k(st, Val{K: KSlice, Typ: types.NewSlice(tString), Fs: []Val{term(id, tInt), term("0", tInt), term(n, tInt)}})
+		mk := func(st *State, has bool) {
+			id := st.allocRef("split")
+			n := ex.fresh("nparts", "Int")
+			first := ex.fresh("part0", "String")
+			rest := ex.fresh("rest", "String")
+			st.assume(not("(str.contains " + first + " " + sep + ")"))
+			if has {
+				st.assume("(str.contains " + s + " " + sep + ")")
+				st.assume(eq(s, "(str.++ "+first+" "+sep+" "+rest+")"))
+				st.assume("(>= " + n + " 2)")
+				st.addFact(strFact{kind: "decomp", a: s, parts: []string{first, sep, rest}})
+				st.addFact(strFact{kind: "notcontains", a: first, lit: smtStringValue(sep)})
+			} else {
+				st.assume(not("(str.contains " + s + " " + sep + ")"))
+				st.assume(eq(s, first))
+				st.assume(eq(n, "1"))
+				st.assume(eq(rest, `""`))
+			}
+			reg, sort := sliceRegion(tString)
+			a := st.region(reg, sort)
+			cont := ex.fresh("splitparts", arr("Int", "String"))
+			st.assume(eq(sel(cont, "0"), first))
+			st.setRegion(reg, sort, store(a, id, cont))
+			st.setKnown(reg, id, "0", first)
+			g := st.region("G!splitrest", arr("Int", "String"))
+			st.setRegion("G!splitrest", arr("Int", "String"), store(g, id, rest))
+			gs := st.region("G!splitsep", arr("Int", "String"))
+			st.setRegion("G!splitsep", arr("Int", "String"), store(gs, id, sep))
+			st.setKnown("G!splitrest", id, "", rest)
+			c.k(st, Val{K: KSlice, Typ: types.NewSlice(tString), Fs: []Val{term(id, tInt), term("0", tInt), term(n, tInt)}})
+		}
+		no := st.clone()
+		ex.paths++
+		mk(st, true)
+		mk(no, false)
 	})
 	w.ext("strings.Join", "Join(Split(s,sep)[1:], sep) == the text after the first sep (only this composition is modelled)", func(ex *Exec, st *State, c *callCtx) {
 		sl, sep := c.args[0], c.args[1].T
@@ -150,6 +183,10 @@ func registerExterns(w *World) {
 		id := sl.Fs[0].T
 		gs := st.region("G!splitsep", arr("Int", "String"))
 		ex.record(st, ex.rootName+"/pre:strings.Join@"+c.site, "requires", eq(sel(gs, id), sep), "Join separator equals Split separator")
+		if t, ok := st.known["G!splitrest|"+id+"|"]; ok {
+			c.k(st, term(t, tString))
+			return
+		}
 		c.k(st, term(sel(st.region("G!splitrest", arr("Int", "String")), id), tString))
 	})
 	w.ext("strconv.Atoi", "Atoi(s): err == nil <=> s in [+-]?[0-9]+ and the value fits int64; then result == (+/-) str.to_int(digits)", func(ex *Exec, st *State, c *callCtx) {
@@ -492,6 +529,8 @@ func externEventWrite(ex *Exec, st *State, c *callCtx) {
 	// failure: fresh non-nil error, out unchanged
 	fe := newErr(ex, fail, "werr")
 	fail.setRegion("G!wfailed", "Bool", "true")
+	fail.trace = append(fail.trace, "write:fail")
+	st.trace = append(st.trace, "write:ok")
 	// success: append snapshot
 	et := ex.auditEventT()
 	n := st.region("G!out#len", "Int")
